@@ -70,7 +70,7 @@ for i in range(runs):
     life = os.path.join(core.BUILD, 'out', 'c05-life-%d-%d.ndjson' % (os.getpid(), i))
     vis = os.path.join(core.BUILD, 'out', 'c05-vis-%d-%d.ndjson' % (os.getpid(), i))
     cfg = dict(lifecycle=life, visibility=vis, millis=millis, writers=rnd.choice([1, 2, 3]), readers=rnd.choice([2, 3, 4]),
-               batchRows=rnd.choice([1, 3]), snapshots=True, engine='stream' if i % 3 == 2 else 'measure')
+               batchRows=rnd.choice([1, 3]), snapshots=True, engine='stream' if i % 3 == 2 else 'measure', rowPath=((i // 3 + c.seed) % 2 == 1))
     res = c.run_harness(binp, ['-mode', 'stress', '-cfg', json.dumps(cfg)], timeout=600)
     if res['inconclusive']:
         c.inconclusive('; '.join(res['inconclusive'][:3]))
@@ -78,7 +78,7 @@ for i in range(runs):
         c.report(vv['signature'], vv['detail'], {'cfg': cfg, 'harness': 'eng/stress'})
     cap = 4000 if c.quick else 15000   # a prefix of a trace is a trace: bound the validation time
     ll = open(life).read().splitlines()[:cap]
-    vl = open(vis).read().splitlines()[:cap]
+    vl = open(vis).read().splitlines()[:min(cap, 6000)]   # (validation of the visibility log grows faster than linearly)
     os.remove(life); os.remove(vis)
     for k2, v2 in res['stats'].items():
         stats_all[k2] = stats_all.get(k2, 0) + v2
@@ -117,7 +117,7 @@ for i in range(runs):
             selftest['visibility_partial_batch'] = not validate('VisibilityTrace.tla', VIS_CFG, mut, 'c05s')[0]
         if not selftest or not all(selftest.values()):
             c.inconclusive('binding self-test failed: a corrupted trace was accepted (%s)' % selftest)
-    c.log('run %d (%s): %d lifecycle + %d visibility events, %s' % (i, cfg['engine'], len(ll), len(vl), {k2: res['stats'][k2] for k2 in ('batches', 'file_snapshots') if k2 in res['stats']}))
+    c.log('run %d (%s%s): %d lifecycle + %d visibility events, %s' % (i, cfg['engine'], ' row path' if cfg['engine'] == 'stream' and cfg['rowPath'] else '', len(ll), len(vl), {k2: res['stats'][k2] for k2 in ('batches', 'file_snapshots') if k2 in res['stats']}))
 
 c.cov.update(states=d.distinct + v.distinct, transitions=d.generated + v.generated, traces_validated_against_impl=traces, trace_events=events,
              evaluations=runs, distinct_nontrivial=traces, stress_stats=stats_all, binding_selftest_rejected=selftest,
